@@ -273,9 +273,12 @@ def _embedding_for(c, classes):
 def fixtures():
     """classes built with the deprecated UnevaluatedExpression API (the package itself no longer
     contains a subclass, the machinery is still public)"""
-    from .expr_fixtures import LegacyExpr
+    from .expr_fixtures import InterleavedExpr, LegacyExpr
 
-    return [Embedding(LegacyExpr, kind="fixture", n_positions=2, has_eval=True,
+    inter = _embedding_for(InterleavedExpr, [InterleavedExpr])
+    inter.kind = "fixture"
+    inter.note = "harness fixture built with @unevaluated: a non-SymPy field declared between two SymPy fields"
+    return [inter, Embedding(LegacyExpr, kind="fixture", n_positions=2, has_eval=True,
                       attr_fields=["_name"], attr_values={"_name": [None, "q"]},
                       builder=lambda a, act, at=(): LegacyExpr(*a, name=(None if not at or at[0] == "a" else "q")),
                       parter=lambda e, act: (list(e.args), ("a" if e._name is None else "b",)),
